@@ -400,6 +400,33 @@ theorem fallback_collision_witness :
   refine ⟨hid, ?_, hne, hck, fun hinj e => hck (hinj _ _ e)⟩
   simp only [keyOfNoFallback, hid]; rfl
 
+/-- WITNESS for the repair "multi_target is part of a gate's cache identity": two route gates over one
+routing function with the same targets and no fallback, one single-target, one multi-target.  The pre-repair
+identity (`identOfNoMulti`) is one and the same, so the multi-target gate is served the single-target gate's
+entry; the repaired identity differs, hence (injective hash) so do the keys. -/
+theorem multi_target_collision_witness :
+    let g₁ : NodeD := { (default : NodeD) with
+      name := "g1", kind := .route, targets := [.node "a", .node "b"], cache := true }
+    let g₂ : NodeD := { g₁ with name := "g2", multiTarget := true }
+    g₁.kind = g₂.kind ∧ g₁.outputs = g₂.outputs ∧ g₁.targets = g₂.targets ∧ g₁.fallback = g₂.fallback ∧
+    g₁.multiTarget ≠ g₂.multiTarget ∧
+    ∀ env : KeyEnv, env.defHash g₁ = env.defHash g₂ → ∀ ins : AL Val,
+      identOfNoMulti env g₁ = identOfNoMulti env g₂ ∧
+      env.hash (cacheKey (identOfNoMulti env g₁) (toParams g₁ ins)) = env.hash (cacheKey (identOfNoMulti env g₂) (toParams g₂ ins)) ∧
+      identOf env g₁ ≠ identOf env g₂ ∧
+      ((∀ a b, env.hash a = env.hash b → a = b) → keyOf env g₁ ins ≠ keyOf env g₂ ins) := by
+  intro g₁ g₂
+  refine ⟨rfl, rfl, rfl, rfl, by decide, ?_⟩
+  intro env hdh ins
+  have hid : identOfNoMulti env g₁ = identOfNoMulti env g₂ := by
+    simp only [identOfNoMulti, hdh]; rfl
+  have hmt : g₁.multiTarget ≠ g₂.multiTarget := by decide
+  have hne : identOf env g₁ ≠ identOf env g₂ := fun e => hmt (congrArg Ident.multiTarget e)
+  have hck : cacheKey (identOf env g₁) (toParams g₁ ins) ≠ cacheKey (identOf env g₂) (toParams g₂ ins) :=
+    fun e => hne (congrArg Prod.fst e)
+  refine ⟨hid, ?_, hne, fun hinj e => hck (hinj _ _ e)⟩
+  rw [hid]; rfl
+
 /-- the pre-repair identity is the repaired one with the `fallback` component forgotten, and the two
 agree on every node without a fallback (every non-gate, every `ifelse`, every route without one): the
 repair changes no other key -/
@@ -694,12 +721,12 @@ theorem hit_requires_same_fields (env : KeyEnv) (hinj : ∀ a b, env.hash a = en
     (hhit : (((Lru.empty ms).run ops).get (keyOf env nd₂ in₂)).2 = some e) :
     ∀ nd₁ in₁ w, Op.set (keyOf env nd₁ in₁) w ∈ ops → keyOf env nd₁ in₁ = keyOf env nd₂ in₂ →
       env.defHash nd₁ = env.defHash nd₂ ∧ nd₁.kind = nd₂.kind ∧ nd₁.outputs = nd₂.outputs ∧
-      nd₁.targets = nd₂.targets ∧ nd₁.fallback = nd₂.fallback ∧
+      nd₁.targets = nd₂.targets ∧ nd₁.fallback = nd₂.fallback ∧ nd₁.multiTarget = nd₂.multiTarget ∧
       sortInputs (toParams nd₁ in₁) = sortInputs (toParams nd₂ in₂) := by
   intro nd₁ in₁ w hmem hk
   obtain ⟨hid, hs⟩ := (hit_requires_same_identity env hinj ms ops nd₂ in₂ e hhit).2 nd₁ in₁ w hmem hk
   exact ⟨congrArg Ident.defHash hid, className_inj (congrArg Ident.cls hid), congrArg Ident.outputs hid,
-    congrArg Ident.targets hid, congrArg Ident.fallback hid, hs⟩
+    congrArg Ident.targets hid, congrArg Ident.fallback hid, congrArg Ident.multiTarget hid, hs⟩
 
 /-- the fallback repair, through the cache: an entry stored for a node is never served to a node with a
 different `fallback` (with the pre-repair key it was, see `fallback_collision_witness`) -/
